@@ -13,7 +13,7 @@ RULE = ('generated terminal sessions of 1..60 tokens (printable runs incl. multi
         'token) the parser is back in its ground state with no parameters left; final screen, cursor, saved cursor, scroll region '
         'and parser state equal those of a twin fed the whole stream at once. Added later: arbitrary final / intermediate bytes inside '
         'control sequences (CAN, SUB, NUL, DEL, ESC), parameters written with non-ASCII decimal digits. '
-        'Ninth round: parameters of 4299..9000 digits, lone surrogates in str input, feeding through process() one byte / character at a time, and ./log not writable (a directory of that name: the one file the terminal writes). Non-trivial: >= 1 cut; distinct by trace digest')
+        'Tenth round: plain text fed through write_ch() one byte or character at a time. Ninth round: parameters of 4299..9000 digits, lone surrogates in str input, feeding through process() one byte / character at a time, and ./log not writable (a directory of that name: the one file the terminal writes). Non-trivial: >= 1 cut; distinct by trace digest')
 
 ASSUME = ['this is the degenerate corner of the technique (one consumer, no clock): only torn delivery and mid-sequence death are simulated',
           'unknown sequences make the emulator append to ./log; the check runs in a scratch directory']
